@@ -7,6 +7,7 @@ import (
 	"fmt"
 	"log/slog"
 	"runtime/trace"
+	"slices"
 
 	"github.com/gordian-engine/gordian/gassert"
 	"github.com/gordian-engine/gordian/gcrypto"
@@ -301,6 +302,13 @@ RESTART:
 		return tmconsensus.HandleProposedHeaderBadBlockHash
 	}
 
+	// The block hash only covers the hashes of the validator sets,
+	// so confirm the validator lists are the ones those hashes were calculated from.
+	if !m.validatorSetMatchesHashes(ph.Header.ValidatorSet) ||
+		!m.validatorSetMatchesHashes(ph.Header.NextValidatorSet) {
+		return tmconsensus.HandleProposedHeaderBadBlockHash
+	}
+
 	// Validate the signature based on the public key the kernel reported.
 	signContent, err := tmconsensus.ProposalSignBytes(ph.Header, ph.Round, ph.Annotations, m.sigScheme)
 	if err != nil {
@@ -413,6 +421,21 @@ RESTART:
 	// Is accepting here sufficient?
 	// We could adjust the addPHRequests channel to respond with a value if needed.
 	return tmconsensus.HandleProposedHeaderAccepted
+}
+
+// validatorSetMatchesHashes reports whether the validators and public keys in vs
+// are exactly the ones that vs's PubKeyHash and VotePowerHash were calculated from.
+func (m *Mirror) validatorSetMatchesHashes(vs tmconsensus.ValidatorSet) bool {
+	want, err := tmconsensus.NewValidatorSet(vs.Validators, m.hashScheme)
+	if err != nil {
+		return false
+	}
+
+	return bytes.Equal(want.PubKeyHash, vs.PubKeyHash) &&
+		bytes.Equal(want.VotePowerHash, vs.VotePowerHash) &&
+		slices.EqualFunc(want.PubKeys, vs.PubKeys, func(a, b gcrypto.PubKey) bool {
+			return a.Equal(b)
+		})
 }
 
 func (m *Mirror) backfillCommitForNextHeightPE(
